@@ -10,6 +10,7 @@ import (
 
 	lru "github.com/hashicorp/golang-lru/v2"
 
+	"github.com/celestiaorg/celestia-node/libs/verifhook"
 	"github.com/celestiaorg/celestia-node/share/eds"
 )
 
@@ -152,6 +153,7 @@ func (bc *AccessorCache) Remove(height uint64) error {
 		// item is not in cache
 		return nil
 	}
+	verifhook.PointKV("cache.remove.before-close", height)
 	if err := ac.close(); err != nil {
 		return err
 	}
@@ -203,6 +205,7 @@ func (s *accessor) close() error {
 	done := s.done
 	s.lock.Unlock()
 
+	verifhook.Point("cache.accessor.close.waiting")
 	// wait until all references are released or timeout is reached. If timeout is reached, log an
 	// error and close the accessor forcefully.
 	select {
